@@ -377,3 +377,85 @@ func xyRefusedCalls(c *fw.Ctx) {
 	try(func() { xyz.Distance(p, short) })
 	c.Count("refused_xy_calls_before_a_judged_one")
 }
+
+// callerScribbles treats a geometry the library returned (a decoder's result, a
+// hull, a clone) as what it is: the caller's own.  The caller pushes further
+// parts onto it - empty ones and non-empty ones -, gives it other coordinates,
+// and finally overwrites every ordinate and every end offset it can reach,
+// spare capacity included.  Nothing is judged here; results the library returns
+// later are judged by their oracles and must not be made of, or share tables
+// with, what was scribbled on.
+func callerScribbles(c *fw.Ctx, t geom.T) {
+	if t == nil || isNilGeom(t) {
+		return
+	}
+	c.Guard("panic", func() { scribbleGeom(c.R, t, 0) })
+	c.Count("results_scribbled_on_by_the_caller")
+}
+
+func scribbleGeom(r *fw.Rand, t geom.T, depth int) {
+	l := t.Layout()
+	st := l.Stride()
+	if depth == 0 {
+		geom.SetSRID(t, 987654)
+	}
+	co := func(v float64) []float64 {
+		f := make([]float64, st)
+		for i := range f {
+			f[i] = v + float64(i)
+		}
+		return f
+	}
+	if st > 0 && depth < 6 {
+		switch g := t.(type) {
+		case *geom.Point:
+			g.SetCoords(co(-901))
+		case *geom.LineString:
+			g.SetCoords([]geom.Coord{co(-902), co(-903)})
+		case *geom.LinearRing:
+			g.SetCoords([]geom.Coord{co(-904), co(-905), co(-906), co(-904)})
+		case *geom.MultiPoint:
+			g.Push(geom.NewPointEmpty(l))
+			g.Push(geom.NewPointFlat(l, co(-907)))
+			g.Push(geom.NewPointEmpty(l))
+		case *geom.MultiLineString:
+			g.Push(geom.NewLineString(l))
+			g.Push(geom.NewLineStringFlat(l, append(co(-908), co(-909)...)))
+		case *geom.Polygon:
+			g.Push(geom.NewLinearRing(l))
+			g.Push(geom.NewLinearRingFlat(l, append(append(append(co(-910), co(-911)...), co(-912)...), co(-910)...)))
+		case *geom.MultiPolygon:
+			g.Push(geom.NewPolygon(l))
+			ring := append(append(append(co(-913), co(-914)...), co(-915)...), co(-913)...)
+			g.Push(geom.NewPolygonFlat(l, ring, []int{len(ring)}))
+			g.Push(geom.NewPolygon(l))
+		case *geom.GeometryCollection:
+			for _, m := range g.Geoms() {
+				scribbleGeom(r, m, depth+1)
+			}
+			g.Push(geom.NewPointFlat(geom.XY, []float64{-916, -917}))
+			return
+		}
+	}
+	if _, ok := t.(*geom.GeometryCollection); ok {
+		return
+	}
+	f := t.FlatCoords()
+	f = f[:cap(f)]
+	for i := range f {
+		f[i] = -8.5e250
+	}
+	e := t.Ends()
+	e = e[:cap(e)]
+	for i := range e {
+		e[i] = -31337
+	}
+	es := t.Endss()
+	es = es[:cap(es)]
+	for i := range es {
+		row := es[i][:cap(es[i])]
+		for j := range row {
+			row[j] = -31338
+		}
+	}
+}
